@@ -74,7 +74,26 @@ pub fn extra_programs() -> Vec<(Program, String)> {
         label("msg"),
         Stmt::Directive(".asciz \"x\"".into()),
     ]);
-    vec![(Program { stmts: s }, "data-list-continued-on-following-lines".to_string())]
+    // an interrupt handler: recognised only through the address that `la` leaves in the
+    // register written to utvec, so every spelling of that `la` has to leave it there
+    let handler = |csr: &str, tail: Stmt| Program {
+        stmts: vec![
+            label("main"),
+            inst(Inst::La(T0, "handler".into())),
+            pseudo(format!("csrrw zero, {csr}, t0"), Inst::Csr(CsrOp::Rw, ZERO, 5, T0)),
+            li(A7, 10),
+            ecall(),
+            label("handler"),
+            addi(T1, T1, 1),
+            li(T2, 3),
+            tail,
+        ],
+    };
+    vec![
+        (Program { stmts: s }, "data-list-continued-on-following-lines".to_string()),
+        (handler("utvec", pseudo("uret", Inst::Jalr(0, 1, 0))), "interrupt-handler-installed-through-utvec".to_string()),
+        (handler("5", pseudo("uret", Inst::Jalr(0, 1, 0))), "interrupt-handler-installed-through-csr-5".to_string()),
+    ]
 }
 
 impl Property for C13 {
